@@ -216,15 +216,15 @@ NetsQuick == {
   Net("noretarget-reg",  40, 10, 4, RegLimit, RegBits, RegBits,    TRUE,  FALSE, TRUE,  6, {-3, 1, 21}, {}) }
 
 NetsThorough == {
-  Net("plain-main-mid",  40, 10, 4, MainLimit, MainBits, MidBits,  FALSE, FALSE, FALSE, 8, {1, 10, 21}, SpansA),
+  Net("plain-main-mid",  40, 10, 4, MainLimit, MainBits, MidBits,  FALSE, FALSE, FALSE, 9, {1, 10, 21}, SpansA),
   Net("plain-main-top",  40, 10, 4, MainLimit, MainBits, MainBits, FALSE, FALSE, FALSE, 8, {1, 10}, SpansA),
   Net("plain-sig-mid",   40, 10, 4, SigLimit, SigBits, <<29, 0, 14202>>, FALSE, FALSE, FALSE, 8, {1, 10}, SpansA),
   Net("plain-small",     40, 10, 4, SmallLimit, SmallBits, SmallMid, FALSE, FALSE, FALSE, 8, {-3, 10}, SpansA),
   Net("plain-p6-f3",     42, 7, 3, MainLimit, MainBits, MidBits,   FALSE, FALSE, FALSE, 8, {1, 7, 15}, {13, 14, 15, 42, 125, 126, 127}),
-  Net("reduce-main-mid", 40, 10, 4, MainLimit, MainBits, MidBits,  TRUE,  FALSE, FALSE, 9, {1, 20, 21}, SpansQ),
+  Net("reduce-main-mid", 40, 10, 4, MainLimit, MainBits, MidBits,  TRUE,  FALSE, FALSE, 10, {1, 20, 21}, SpansQ),
   Net("reduce-main-top", 40, 10, 4, MainLimit, MainBits, MainBits, TRUE,  FALSE, FALSE, 9, {1, 21}, SpansS),
   Net("reduce-p5",       50, 10, 4, MainLimit, MainBits, MidBits,  TRUE,  FALSE, FALSE, 11, {10, 21}, {12, 13, 50, 200, 201}),
-  Net("bip94-main-mid",  40, 10, 4, MainLimit, MainBits, MidBits,  TRUE,  TRUE,  FALSE, 10, {1, 21}, SpansQ),
+  Net("bip94-main-mid",  40, 10, 4, MainLimit, MainBits, MidBits,  TRUE,  TRUE,  FALSE, 9, {1, 20, 21}, SpansQ),
   Net("bip94-p5",        50, 10, 4, MainLimit, MainBits, MidBits,  TRUE,  TRUE,  FALSE, 11, {10, 21}, {12, 13, 50, 200, 201, 900}),
   Net("bip94-noreduce",  40, 10, 4, MainLimit, MainBits, MidBits,  FALSE, TRUE,  FALSE, 9, {1, 10}, SpansA),
   Net("noretarget-reg",  40, 10, 4, RegLimit, RegBits, RegBits,    TRUE,  FALSE, TRUE,  7, {-3, 1, 21}, {}),
